@@ -31,8 +31,35 @@ def showSigs (w : W) (ux : List Nat) (orig : List Sig) (sigs : List Sig) : Strin
     | .ext j => if orig[i]? = some (.ext j) then "k" else "b"
     | .made k _ _ => if k ≠ 0 ∧ w.entries.any (fun e => e.sec = k ∧ some e.addr = ux[i]?) then "s" else "b"
 
+/-- `csign`: every input of a created-and-signed transaction verifies for its owner, inputs in the
+listed (coins descending) order -/
+def stepCsign (ws : List String) : String × Verdict :=
+  let r := do
+    let nent ← (field "nent=" ws).toNat?
+    let ux ← (items (field "ux=" ws)).mapM fun (x : String) =>
+      match x.splitOn ":" with
+      | [e, _, _] => parseUx e
+      | _ => none
+    pure (nent, ux)
+  match r with
+  | none => ("bad-op", .unknown)
+  | some (nent, ux) =>
+    let entries : List Entry := (List.range nent).map fun i => ⟨i + 1, i + 1⟩
+    let ins := (List.zip (List.range ux.length) ux).map fun (i, a) => (i + 101, a)
+    match signCreated entries 7 ins with
+    | .ok sigs =>
+      let cls := (List.zip sigs ins).map fun (s, (_, a)) =>
+        match s with
+        | .made k _ _ => if entries.any (fun e => e.sec = k ∧ e.addr = a) then "s" else "b"
+        | _ => "b"
+      let owners := ux.map fun a => s!"e{a - 1}"
+      (s!"ok sigs={",".intercalate cls} owners={",".intercalate owners} verify=ok vis=ok", .fail)
+    | .err e => ("err " ++ e.toString, .fail)
+    | .panic _ => ("panic", .fail)
+
 def step (op impl : String) : String × Verdict :=
   let ws := op.splitOn " "
+  if ws.head? == some "csign" then stepCsign ws else
   let r := do
     let spec := (field "wallet=" ws).splitOn ":"
     let typ ← spec[0]?
